@@ -98,7 +98,8 @@ BadBodies == { NotD(Ta), ItD(Ta, Tb), Seq2(Ta, NotD(Tb)), Seq2(NotD(Ta), Tb), Ba
 PhraseBodies == (IF Tier = "quick" THEN AtomsX \cup L1Seq(AtomsS, AtomsS) \cup L1Bar(AtomsS, AtomsS) \cup IteQ
                                          \cup { Seq2(p, Bar(q, r)) : p \in {Ta, N2}, q \in {Cut}, r \in {Te, Tab} }
                                          \cup { Bar(Seq2(p, Cut), q) : p \in {Ta, N2, Tx}, q \in {Te, Tab, Tx} }
-                 ELSE BodiesA \cup Level2Q) \cup BadBodies
+                                         \cup { IteD(Seq2(N2, Cut), Tx, Te), IteD(Seq2(Gq, Cut), Tx, Te), IteD(Cut, Ta, Tb) }
+                 ELSE BodiesA \cup { IteD(Cut, Ta, Tb) } \cup Level2Q) \cup BadBodies
 
 (* ---- grammars ---- *)
 VarsQ == {Nt2V1, Nt2V3}
